@@ -1,6 +1,7 @@
 (* C20 correspondence cases: what raw_class_file answered, to be compared with the generic
    interpreters of Fmt.v run over the GENERATED table RawGen.raw_env. *)
 From FB Require Export C20.Fmt C20.RawGen Base.Run.
+From FB Require Import C20.Jvms.
 Open Scope N_scope.
 
 (* values as the harness prints them (parsed from the crate's own #[derive(Debug)] output):
@@ -93,8 +94,11 @@ Inductive case :=
    generator built it inside (Some true) / outside (Some false) the hypotheses of read_write *)
 | CVal (hyp : option bool) (v : nval) (wr : res (list N)) (len : res N) (rd : rdres)
 (* a byte string: read (Err = error or panic); on success the value, the number of bytes left, and
-   whether to_bytes of the value reproduces the consumed prefix exactly *)
-| CBytes (bs : list N) (r : res (nval * N * bool)).
+   whether to_bytes of the value reproduces the consumed prefix exactly.  [wf]: the verdict of the
+   harness' independent strict JVMS walker (written in Rust) on the same bytes — compared with the
+   verdict of the strict reader generated from the hand-written JVMS table of Jvms.v, the notion of
+   "well-formed class file" the theorem C20_reads_every_wellformed_class is about *)
+| CBytes (bs : list N) (wf : bool) (r : res (nval * N * bool)).
 
 Definition conv (nv : nval) : option val := to_val raw_env 40 class_ty nv.
 
@@ -132,7 +136,8 @@ Definition check (c : case) : bool :=
                  end
              end
       end
-  | CBytes bs r =>
+  | CBytes bs wf r =>
+      Bool.eqb (match class_read_strict jvms_env bs with Ok (_, []) => true | _ => false end) wf &&
       match class_read raw_env bs, r with
       | Err, Err => true
       | Ok (v, rest), Ok (nv, n, same) =>
